@@ -105,10 +105,16 @@ Definition parse_frac (s : list ascii) : option (Z * list ascii) :=
   | _ => Some (0, s)
   end.
 
-Definition mk_off (neg : bool) (h m s u : Z) : option (option Z) :=
-  let a := ((h * 60 + m) * 60 + s) * SEC_US + u in Some (Some (if neg then - a else a)).
+(* q = the reader has CPython's C-implementation quirk (probed, GENERATED fact): an offset whose whole seconds are
+   zero is taken to be UTC and its microseconds are dropped ("+00:00:00.000001" reads as UTC) *)
+Definition mk_off (q neg : bool) (h m s u : Z) : option (option Z) :=
+  if q && (h =? 0) && (m =? 0) && (s =? 0) then Some (Some 0)
+  else let a := ((h * 60 + m) * 60 + s) * SEC_US + u in Some (Some (if neg then - a else a)).
+(* offsets the reader q reads exactly: all of them without the quirk; with it, zero or at least one second *)
+Definition off_exact (q : bool) (o : option Z) : bool :=
+  match o with None => true | Some z => negb q || (z =? 0) || (SEC_US <=? Z.abs z) end.
 
-Definition parse_off_body (neg : bool) (t : list ascii) : option (option Z) :=
+Definition parse_off_body (q neg : bool) (t : list ascii) : option (option Z) :=
   match parse_digits 2 0 t with
   | None => None
   | Some (h, t1) =>
@@ -119,18 +125,18 @@ Definition parse_off_body (neg : bool) (t : list ascii) : option (option Z) :=
       | None => None
       | Some (m, t3) =>
         match t3 with
-        | [] => mk_off neg h m 0 0
+        | [] => mk_off q neg h m 0 0
         | c3 :: t4 =>
           if Ascii.eqb c3 ":"%char then
             match parse_digits 2 0 t4 with
             | None => None
             | Some (s, t5) =>
               match t5 with
-              | [] => mk_off neg h m s 0
+              | [] => mk_off q neg h m s 0
               | c5 :: t6 =>
                 if Ascii.eqb c5 "."%char then
                   match parse_digits 6 0 t6 with
-                  | Some (u, []) => mk_off neg h m s u
+                  | Some (u, []) => mk_off q neg h m s u
                   | _ => None
                   end
                 else None
@@ -142,12 +148,12 @@ Definition parse_off_body (neg : bool) (t : list ascii) : option (option Z) :=
     end
   end.
 
-Definition parse_off (s : list ascii) : option (option Z) :=
+Definition parse_off (q : bool) (s : list ascii) : option (option Z) :=
   match s with
   | [] => Some None
   | c :: t =>
-      if Ascii.eqb c "+"%char then parse_off_body false t
-      else if Ascii.eqb c "-"%char then parse_off_body true t
+      if Ascii.eqb c "+"%char then parse_off_body q false t
+      else if Ascii.eqb c "-"%char then parse_off_body q true t
       else if Ascii.eqb c "Z"%char then (match t with [] => Some (Some 0) | _ => None end)
       else None
   end.
@@ -161,7 +167,7 @@ Definition parse_sep (s : list ascii) : option (list ascii) :=
   | [] => None
   end.
 
-Definition iso_parse_l (s : list ascii) : option dtv :=
+Definition iso_parse_l (q : bool) (s : list ascii) : option dtv :=
   obind (parse_digits 4 0 s) (fun '(y, s1) =>
   obind (expect "-"%char s1) (fun s2 =>
   obind (parse_digits 2 0 s2) (fun '(m, s3) =>
@@ -174,10 +180,10 @@ Definition iso_parse_l (s : list ascii) : option dtv :=
   obind (expect ":"%char s9) (fun s10 =>
   obind (parse_digits 2 0 s10) (fun '(sc, s11) =>
   obind (parse_frac s11) (fun '(u, s12) =>
-  obind (parse_off s12) (fun o =>
+  obind (parse_off q s12) (fun o =>
   let r := mkdt y m d h mn sc u o in if validb r then Some r else None))))))))))))).
 
-Definition iso_parse (s : string) : option dtv := iso_parse_l (list_ascii_of_string s).
+Definition iso_parse (q : bool) (s : string) : option dtv := iso_parse_l q (list_ascii_of_string s).
 
 (* ---------------------------------------------------------------- the instant: proleptic Gregorian day count *)
 (* days since 1970-01-01 of the civil date y-m-d *)
@@ -243,10 +249,10 @@ Definition dt_of_epoch (n : Z) : option dtv :=
 Definition obj_rebuild (keeps_fold : bool) (d : dtv) (off_fold0 : option Z) : dtv :=
   if keeps_fold then d else mkdt (yr d) (mo d) (dy d) (hh d) (mi d) (ss d) (us d) off_fold0.
 
-Definition dt_new (keeps_fold : bool) (i : dt_input) : option dtv :=
+Definition dt_new (q keeps_fold : bool) (i : dt_input) : option dtv :=
   match i with
   | InObj d o0 => dt_of_fields (obj_rebuild keeps_fold d o0)
-  | InText s => option_map coerce (iso_parse s)
+  | InText s => option_map coerce (iso_parse q s)
   | InEpochMicros n => dt_of_epoch n
   end.
 
@@ -286,19 +292,19 @@ Definition rule_safe (r : pack_rule) : bool :=
   match chosen_form r KOther with FormTuple7 => false | FormIsoText => true end.
 
 Definition stream_encode (r : pack_rule) (k : tz_kind) (d : dtv) : wire := encode_form (chosen_form r k) d.
-Definition text_decode (s : string) : option dtv := option_map coerce (iso_parse s).
-Definition stream_decode (w : wire) : option dtv :=
+Definition text_decode (q : bool) (s : string) : option dtv := option_map coerce (iso_parse q s).
+Definition stream_decode (q : bool) (w : wire) : option dtv :=
   match w with
   | WTuple t => unpack_tuple t
-  | WText s => text_decode s
+  | WText s => text_decode q s
   | WMicros _ => None
   end.
 
 (* JSON and SQLite: isoformat() text, read back through the field type *)
 Definition text_encode (f : pk_form) (d : dtv) : option wire :=
   match f with FormIsoText => Some (WText (iso_print d)) | FormTuple7 => None end.
-Definition text_wire_decode (w : wire) : option dtv :=
-  match w with WText s => text_decode s | _ => None end.
+Definition text_wire_decode (q : bool) (w : wire) : option dtv :=
+  match w with WText s => text_decode q s | _ => None end.
 
 (* Avro timestamp-micros: the writer stores the instant (any instant fits a long).  The reader hands back
    EPOCH + timedelta(microseconds=n) when the schema carries the logical type (fastavro) or when the raw number
